@@ -438,7 +438,11 @@ pub fn check_config(ctx: &Ctx, c: &Config, t: &mut Tally) {
                                 let jb = &j["balance_m2"]["we"]["b"];
                                 let got = [jb["ren"].as_f64().unwrap_or(f64::NAN), jb["nren"].as_f64().unwrap_or(f64::NAN), jb["co2"].as_f64().unwrap_or(f64::NAN)];
                                 let wantv = [b.ren as f64, b.nren as f64, b.co2 as f64];
-                                if !(0..3).all(|i| close(got[i], wantv[i], 6e-4 + 2e-6 * wantv[i].abs())) {
+                                // two evaluations differ by the rounding of hash-ordered f32 accumulation, which is
+                                // relative to the terms that cancel in each figure (delivered vs. exported), not to the figure
+                                let (d, x) = (&ep.balance_m2.we.del, &ep.balance_m2.we.exp);
+                                let cancel = [d.ren.abs() as f64 + x.ren.abs() as f64, d.nren.abs() as f64 + x.nren.abs() as f64, d.co2.abs() as f64 + x.co2.abs() as f64];
+                                if !(0..3).all(|i| close(got[i], wantv[i], 6e-4 + 2e-6 * wantv[i].abs().max(cancel[i]))) {
                                     t.violation("C19.results_not_computed_with_effective_values", format!("reported step B energy per m2 {:?}, evaluation with the effective values gives {:?}", got, wantv), || wit(json!({})));
                                 }
                                 // and the plain report states them
